@@ -16,17 +16,33 @@ DATA = {
 DATA["c32"] = DATA["c"]                      # the same values as a float32 array
 DATA["i"] = [[[0, 2], [1, 3], [1, 2]]]       # an integer array
 DTYPE = {"c32": np.float32, "i": np.int64}
+# data sets of one shape, written into ONE array object per imager history (a caller refilling a buffer)
+DATA["p"] = [[[0.0, 1.0], [0.5, 1.2], [0.25, 0.5]]]
+DATA["q"] = [[[-1.0, 2.0], [1.0, 1.5], [3.0, 4.5]]]
 
 
 def data_arrays(key):
     return [np.array(d, dtype=DTYPE.get(key, float)) for d in DATA[key]]
 
 
+def buffered_arg(im, op):
+    """The argument object for a fit through a reused container: ONE (3,2) array (fit_buf) or ONE list
+    (fit_listbuf) per imager, refilled in place with the requested data set."""
+    store = im.__dict__.setdefault("_verif_buffers", {"arr": np.zeros((3, 2)), "lst": []})
+    dg = data_arrays(op[1])
+    if op[0] == "fit_buf":
+        store["arr"][...] = dg[0]
+        return store["arr"], dg
+    store["lst"].clear()
+    store["lst"].extend(dg)
+    return store["lst"], dg
+
+
 SIGMA_STD = 0.0003  # narrow probe kernel: (smallest pixel)/40
 RULE = (
     "BFS over configuration histories of REAL PersistenceImager objects: initial states = all "
     "constructor products birth_range x pers_range x pixel_size (7x7x6; ranges include extents just above / below a multiple of the pixel) + defaults; operations = "
-    "birth_range=r (7), pers_range=r (7), pixel_size=s (6), fit(D) for 3 data sets x skew on/off (6) + a float32 and an integer data set (3), fit_transform(D) for 2 data sets x skew on/off (4); "
+    "birth_range=r (7), pers_range=r (7), pixel_size=s (6), fit(D) for 3 data sets x skew on/off (6) + a float32 and an integer data set (3) + fits through ONE reused array / list object refilled in place (4), fit_transform(D) for 2 data sets x skew on/off (4); "
     "depth 2 (quick) / 4 (thorough), plus the FULL tree of histories (no de-duplication) to depth 4 (5) over a reduced 9-operation alphabet from 3 states; states de-duplicated on the public geometry "
     "(ranges, width, height, resolution, pixel_size) with differential continuation of merged states. "
     "Every state: resolution*pixel = width/height = range extents, transform shape = resolution, "
@@ -61,6 +77,7 @@ def inits():
 OPS = ([["birth_range", list(r)] for r in RANGES] + [["pers_range", list(r)] for r in RANGES]
        + [["pixel_size", s] for s in PIXELS] + [["fit", k, sk] for k in ("a", "b", "c") for sk in (True, False)]
        + [["fit", "c32", True], ["fit", "i", True], ["fit", "i", False]]
+       + [["fit_buf", "p", True], ["fit_buf", "q", True], ["fit_listbuf", "b", True], ["fit_listbuf", "q", True]]
        + [["fit_transform", k, sk] for k in ("a", "c") for sk in (True, False)])
 
 
@@ -216,11 +233,14 @@ def apply_op(ctx, im, op, where):
         for ax in ("birth_range", "pers_range"):
             covers(ctx, "pixel-size-" + ax, "the %s covered before the pixel-size change" % ax, before[ax][0], before[ax][1],
                    g[ax][0], g[ax][1], g["pixel_size"], where, {"before": before, "after": g})
-    elif op[0] in ("fit", "fit_transform"):
-        dg = data_arrays(op[1])
-        arg = dg[0] if len(dg) == 1 else dg
+    elif op[0] in ("fit", "fit_transform", "fit_buf", "fit_listbuf"):
+        if op[0] in ("fit_buf", "fit_listbuf"):
+            arg, dg = buffered_arg(im, op)
+        else:
+            dg = data_arrays(op[1])
+            arg = dg[0] if len(dg) == 1 else dg
         ctx.trans()
-        if op[0] == "fit":
+        if op[0] != "fit_transform":
             im.fit(arg, skew=op[2])
         else:
             out = im.fit_transform(arg, skew=op[2])
@@ -289,7 +309,9 @@ def run_history(case, ctx):
 
 
 def silent_apply(im, op):
-    if op[0] in ("fit", "fit_transform"):
+    if op[0] in ("fit_buf", "fit_listbuf"):
+        im.fit(buffered_arg(im, op)[0], skew=op[2])
+    elif op[0] in ("fit", "fit_transform"):
         dg = data_arrays(op[1])
         getattr(im, op[0])(dg[0] if len(dg) == 1 else dg, skew=op[2])
     else:
